@@ -43,6 +43,35 @@ pub fn check_convert(ts: i128) -> Result<(), String> {
     Ok(())
 }
 
+/// Conversions that read the current local date: with the clock injected at the instant `ts`,
+/// `OracleDate::now()` is that instant floored to the second and `OracleDate::try_from(time)` is
+/// today + time floored to the second (also when today is before 1970).
+pub fn check_clock_convert(ts: i128, tod2: i128) -> Result<(), String> {
+    use std::convert::TryFrom;
+    let day = ts.div_euclid(US_PER_DAY);
+    let tod = ts.rem_euclid(US_PER_DAY);
+    let r = *cal().row(day as i64).ok_or("clock date out of range")?;
+    ad::clock_set(r.y, r.m as u32, r.d as u32, (tod / US_PER_HOUR) as u32, (tod % US_PER_HOUR / US_PER_MIN) as u32, (tod % US_PER_MIN / US_PER_SEC) as u32, (tod % US_PER_SEC) as u32);
+    let out = guarded(|| -> Result<(), String> {
+        let floor = |x: i128| x.div_euclid(US_PER_SEC) * US_PER_SEC;
+        match OracleDate::now() {
+            Ok(x) if x.usecs() as i128 == floor(ts) => {}
+            other => return Err(format!("OracleDate::now() = {:?}, expected {} (the instant floored to the second)", other.map(|x| x.usecs()), floor(ts))),
+        }
+        for t in [tod, tod2] {
+            let want = floor(day * US_PER_DAY + t);
+            match OracleDate::try_from(ad::time(t as i64)) {
+                Ok(x) if x.usecs() as i128 == want => {}
+                other => return Err(format!("OracleDate::try_from(Time {t}) = {:?}, expected today + time floored to the second = {want}", other.map(|x| x.usecs()))),
+            }
+        }
+        Ok(())
+    })
+    .unwrap_or_else(|p| Err(p));
+    ad::clock_clear();
+    out.map_err(|m| format!("with the current local instant {ts} us ({}): {m}", super::c05::show(Kind::Ts, ts)))
+}
+
 /// Any operation of the table that returns an Oracle-style date: whole second, in range.
 pub fn check_op_invariant(op: &Op, args: &[Arg]) -> Result<(bool, &'static str), String> {
     let got = guarded(|| (op.call)(args)).map_err(|p| format!("{}({}): {p}", op.name, describe_args(args)))?;
@@ -150,6 +179,7 @@ pub fn eval(case: &Case) -> Verdict {
     let i = &case.i;
     let r: Result<(), String> = match case.kind.as_str() {
         "convert" => check_convert(i[0]),
+        "clock_convert" => check_clock_convert(i[0], i[1]),
         "add_dt" => check_add_dt(i[0], i[1], i[2] != 0),
         "add_days" => check_add_days(i[0] as u8, i[1], i2f(i[2])).map(|_| ()),
         "sub_date" => check_sub_date(i[0], i[1]),
@@ -219,12 +249,20 @@ pub fn run(ctx: &Ctx) -> (Stats, Report) {
                         st.fail(i, Case::new(P, "convert", vec![ts], vec![]), m);
                         return;
                     }
+                    // the clock-reading conversions, with this instant as "now"
+                    let tod2 = (mix64(i ^ (u as u64) << 20 ^ s as u64) % 86_400_000_000) as i128;
+                    st.evaluations += 1;
+                    st.nontrivial_enum += 1;
+                    if let Err(m) = check_clock_convert(ts, tod2) {
+                        st.fail(i, Case::new(P, "clock_convert", vec![ts, tod2], vec![]), m);
+                        return;
+                    }
                 }
             }
         }
     });
     st.merge(s);
-    st.exhaustive_sections.push("conversions: all dates x {00:00:00, 00:00:01, 12:00:00, 23:59:59} x sub-second {0,1,499999,500000,999999}".into());
+    st.exhaustive_sections.push("conversions: all dates x {00:00:00, 00:00:01, 12:00:00, 23:59:59} x sub-second {0,1,499999,500000,999999}, each also as the injected current instant for OracleDate::now() and OracleDate::try_from(Time)".into());
     st.sample(1, || json!({"kind": "convert", "timestamp_us": (-1i64).to_string(), "floored": (-1_000_000i64).to_string()}));
     st.section("conversions", &mut mark);
 
@@ -362,7 +400,7 @@ pub fn run(ctx: &Ctx) -> (Stats, Report) {
     st.section("differences", &mut mark);
 
     let rep = Report {
-        rule: "Conversions: all dates x 4 seconds of the day x sub-second parts {0,1,499999,500000,999999} through From<Timestamp> and new (floor via i128 div_euclid, also before 1970). Every operation of the operation table that takes or returns an Oracle-style date (constructors, conversions, interval / day arithmetic, last_day_of_month, 12 trunc + 12 round) on boundary+seeded pool cross products: each returned Oracle-style date must be a whole second inside 0001-01-01 00:00:00..9999-12-31 23:59:59. add/sub_interval_dt = the exact timestamp result floored to the second. add_days/sub_days/oracle_add_days/oracle_sub_days with classed doubles, k+1/2 second +-{0,1,10,100} us offsets, exactly representable near-tie offsets and proptest-generated pairs: the result must be a whole second within half a second of an admissible exact instant (ties either way). sub_date on pool pairs = seconds/86400 correctly rounded. Non-trivial = sub-second input, fractional-second offset, non-whole-second interval, non-whole-day difference, error outcome.".into(),
+        rule: "Conversions: all dates x 4 seconds of the day x sub-second parts {0,1,499999,500000,999999} through From<Timestamp> and new (floor via i128 div_euclid, also before 1970); every such instant also injected as the current local instant (feature verif-hooks) for OracleDate::now() and OracleDate::try_from(Time) with that and a second, seeded sub-second time of day. Every operation of the operation table that takes or returns an Oracle-style date (constructors, conversions, interval / day arithmetic, last_day_of_month, 12 trunc + 12 round) on boundary+seeded pool cross products: each returned Oracle-style date must be a whole second inside 0001-01-01 00:00:00..9999-12-31 23:59:59. add/sub_interval_dt = the exact timestamp result floored to the second. add_days/sub_days/oracle_add_days/oracle_sub_days with classed doubles, k+1/2 second +-{0,1,10,100} us offsets, exactly representable near-tie offsets and proptest-generated pairs: the result must be a whole second within half a second of an admissible exact instant (ties either way). sub_date on pool pairs = seconds/86400 correctly rounded. Non-trivial = sub-second input, fractional-second offset, non-whole-second interval, non-whole-day difference, error outcome.".into(),
         assumptions: vec![
             "add_days may fail when the exact (unrounded) instant lies outside the timestamp range even if its nearest second is the range minimum".into(),
             "month arithmetic of the Oracle-style date is decided in C09, truncation/rounding values in C10/C11/C17; here only the whole-second and range invariants of their results".into(),
